@@ -1,12 +1,177 @@
 import Driver.Util
-/- Line-protocol handler for the `path` model (stub until the model exists). -/
+import Munge.Model.Path
+/- Line-protocol handler for the `Path` model (C16).  Same op lines as harness/h_path.c. -/
 namespace Driver.Path
+open Munge Munge.C Munge.Path Munge.Gen.Path
 
 structure St where
   dummy : Unit := ()
 
 def init : St := {}
 
-def step (st : St) (_args : List String) : St × String := (st, "bad-op")
+def nat? (s : String) : Option Int := s.toNat?.map Int.ofNat
+
+/-- `mode:uid:gid` -/
+def stat3? (s : String) : Option Stat :=
+  match s.splitOn ":" with
+  | [m, u, g] => do pure { mode := ← nat? m, uid := ← nat? u, gid := ← nat? g }
+  | _ => none
+
+/-- `path:mode:uid:gid,...` or `-` -/
+def table? (s : String) : Option (List (List Char × Stat)) :=
+  if s == "-" then some [] else
+  (s.splitOn ",").mapM fun e =>
+    match e.splitOn ":" with
+    | [p, m, u, g] => do pure (p.toList, { mode := ← nat? m, uid := ← nat? u, gid := ← nat? g })
+    | _ => none
+
+def tgid? (s : String) : Option Int := if s == "-" then some GID_SENTINEL else nat? s
+
+def siteTag (sites : List (String × String)) (k : Nat) : String :=
+  match sites[k]? with
+  | some (_, fmt) => classify fmt
+  | none => "nosite"
+
+def showPath (p : List Char) : String := if p.isEmpty then "-" else String.ofList p
+
+def verdictLine (v : Verdict) : String :=
+  if v.rc == 1 then "rc=1 why=- at=-" else
+  let why := match v.site with
+    | some k => siteTag dirCheck_sites k
+    | none => v.tag
+  s!"rc={v.rc} why={why} at={showPath v.at_}"
+
+/-- is `p` the directory `base` or one of its ancestors? -/
+def isAncestorOrSelf (p base : List Char) : Bool :=
+  p == base || p == ['/'] || (p.isPrefixOf base && (base.drop p.length).head? == some '/')
+
+def dirMode (perm : Int) : Int := S_IFDIR + perm
+
+/-- the real-file-system scenarios: `base` and everything above it is a root-owned 0755 directory (the harness
+    checks this at `fsinit`), below it the directories `d1/d2/…` of the op line, then the file -/
+def fsEnv (base : List Char) (dirs : List Stat) : Env × List Char :=
+  let rec build (cur : List Char) (ds : List Stat) (i : Nat) (acc : List (List Char × Stat)) : List (List Char × Stat) × List Char :=
+    match ds with
+    | [] => (acc, cur)
+    | d :: rest =>
+      let nxt := cur ++ ("/d" ++ toString i).toList
+      build nxt rest (i + 1) ((nxt, { d with mode := dirMode d.mode }) :: acc)
+  let (tbl, leafdir) := build base dirs 1 []
+  (fun p => match tbl.lookup p with
+    | some s => some s
+    | none => if isAncestorOrSelf p base then some { mode := dirMode 0o755, uid := 0, gid := 0 } else none,
+   leafdir)
+
+def dirs? (s : String) : Option (List Stat) :=
+  if s == "-" then some [] else (s.splitOn ",").mapM stat3?
+
+def typeBits : String → Option Int
+  | "reg" => some S_IFREG
+  | "dir" => some S_IFDIR
+  | "chr" => some S_IFCHR
+  | "sock" => some S_IFSOCK
+  | _ => none
+
+/-- lstat/stat view of `<leafdir>/<name>`: the file itself, or a symbolic link (root-owned, 0777) to it -/
+def fileView (ftype : String) (perm uid gid : Int) (link : Bool) : FileView :=
+  let tgt : Option Stat := (typeBits ftype).map fun t => { mode := t + perm, uid := uid, gid := gid }
+  if link then { l := some { mode := S_IFLNK + 0o777, uid := 0, gid := 0 }, s := tgt }
+  else { l := tgt, s := tgt }
+
+def tags (sites : List (String × String)) (ks : List Nat) : String :=
+  if ks.isEmpty then "-" else String.intercalate "+" (ks.map (siteTag sites))
+
+def fatalTag (sites : List (String × String)) (o : KOut) : String :=
+  match fatalSite o with
+  | some k => siteTag sites k
+  | none => "-"
+
+def b2n (b : Bool) : Nat := if b then 1 else 0
+
+def keyOp (base : List Char) (force euid tgid : Int) (ftype : String) (perm uid gid : Int) (link : Bool)
+    (dirs : List Stat) : String :=
+  let (env, leafdir) := fsEnv base dirs
+  let v := fileView ftype perm uid gid link
+  let sec := fun fl => (isSecure fl tgid euid env (some leafdir)).rc
+  let o := keyfile force euid 47 v sec 3
+  s!"fatal={b2n (fatal o)} site={fatalTag conf_open_keyfile_sites o} warns={tags conf_open_keyfile_sites (warned o)} fd={if fatal o then "-" else "ok"}"
+
+def seedOp (base : List Char) (force euid tgid : Int) (ftype : String) (perm uid gid : Int) (link : Bool)
+    (size : Int) (dirs : List Stat) : String :=
+  let (env, leafdir) := fsEnv base dirs
+  let v := fileView ftype perm uid gid link
+  let sec := fun fl => (isSecure fl tgid euid env (some leafdir)).rc
+  -- open(2) as root: a missing file gives ENOENT, a socket ENXIO, everything else opens
+  let (fd, en) : Int × Int := match v.s with
+    | none => (-1, ENOENT)
+    | some _ => if ftype == "sock" then (-1, 6) else (3, 0)
+  let avail : Int := if ftype == "reg" then size else 0
+  let rd := fun nb => readSeed euid v.l fd en v.s avail nb
+  -- unlink(2) as root fails on a directory only
+  let isdirEntry := !link && ftype == "dir"
+  let missing := v.l.isNone
+  let (urc, uen) : Int × Int := if missing then (-1, ENOENT) else if isdirEntry then (-1, 21) else (0, 0)
+  let o := seedFromFile force 47 sec rd urc uen
+  let unlinked := o.events.any (·.1 == "unlink")
+  let added : Int := if fatal o || (sec 0 < 0) || (sec 0 == 0 && force == 0) then 0 else seedBytesAdded (rd 1024)
+  let existsAfter := !missing && !(unlinked && urc == 0)
+  s!"ret={if fatal o then "-" else toString o.ret} fatal={b2n (fatal o)} site={fatalTag random_read_entropy_from_file_sites o} warns={tags random_read_entropy_from_file_sites (warned o)} added={added} exists={b2n existsAfter}"
+
+def modeOp (site : String) (u : Int) : String :=
+  let (ms, after) : List Int × List Int := match site with
+    | "sock" => (sockModes u, sock_create_umaskAfter u)
+    | "lock" => (lockModes u, lock_create_umaskAfter u)
+    | "pid" => (pidModes u, write_pidfile_umaskAfter u)
+    | "log" => (logModes u, open_logfile_umaskAfter u)
+    | "seed" => (seedModes u, random_write_seed_umaskAfter u)
+    | _ => ([], [])
+  match ms, after with
+  | [m], [a] => s!"mode={m} after={a}"
+  | _, _ => s!"mode=? after=? ({ms.length} creation sites, {after.length} final umasks)"
+
+/-- `lock_create` over a lock file that already exists with permission bits `perm` and owner `uid` -/
+def lockPreOp (perm uid euid : Int) : String :=
+  let o := lock_create 0 1 0 (-1) 0 0 0 3 0 0
+  if fatal o then s!"fatal=1 site={fatalTag lock_create_sites o} mode={perm}" else
+  if o.events.any (·.1 == "_lock_stat") then
+    let s := lock_stat 0 (S_IFREG + perm) uid euid
+    s!"fatal={b2n (fatal s)} site={fatalTag lock_stat_sites s} mode={perm}"
+  else s!"fatal=0 site=- mode={perm}"
+
+/-- the directory gate of a creation site on the real file system (nothing exists yet in the leaf directory) -/
+def gateOp (base : List Char) (site : String) (force euid tgid : Int) (dirs : List Stat) : String :=
+  let (env, leafdir) := fsEnv base dirs
+  let sec := fun fl => (isSecure fl tgid euid env (some leafdir)).rc
+  -- path_is_accessible: every directory on the path has all three execute bits (base and above: 0755)
+  let acc : Int := if dirs.all (fun d => d.mode % 2 == 1 && d.mode / 8 % 2 == 1 && d.mode / 64 % 2 == 1) then 1 else 0
+  let r : Option (KOut × List (String × String)) := match site with
+    | "pid" => some (write_pidfile 18 1 47 force 0 (-1) ENOENT 1 1 0 sec, write_pidfile_sites)
+    | "log" => some (open_logfile 18 1 47 force 6 (-1) 0 (-1) ENOENT 0 0 euid 0 1 sec, open_logfile_sites)
+    | "sock" => some (sock_create 18 1 1 47 force 5 0 acc (-1) ENOENT 3 10 108 0 0 sec, sock_create_sites)
+    | _ => none
+  match r with
+  | some (o, sites) => s!"fatal={b2n (fatal o)} site={fatalTag sites o} warns={tags sites (warned o)}"
+  | none => "bad-op"
+
+def step (st : St) (args : List String) : St × String :=
+  let out : Option String := match args with
+    | ["fsinit", _] => some "ok"
+    | ["sec", fl, tg, eu, canon, tbl] => do
+        let fl ← nat? fl; let tg ← tgid? tg; let eu ← nat? eu; let tbl ← table? tbl
+        let env : Env := fun p => tbl.lookup p
+        let c := if canon == "-" then none else some canon.toList
+        pure (verdictLine (isSecure fl tg eu env c))
+    | ["key", base, force, eu, tg, ftype, perm, uid, gid, link, dirs] => do
+        pure (keyOp base.toList (← nat? force) (← nat? eu) (← tgid? tg) ftype (← nat? perm) (← nat? uid) (← nat? gid)
+          (link == "1") (← dirs? dirs))
+    | ["seed", base, force, eu, tg, ftype, perm, uid, gid, link, size, dirs] => do
+        pure (seedOp base.toList (← nat? force) (← nat? eu) (← tgid? tg) ftype (← nat? perm) (← nat? uid) (← nat? gid)
+          (link == "1") (← nat? size) (← dirs? dirs))
+    | ["gate", base, site, force, eu, tg, dirs] => do
+        pure (gateOp base.toList site (← nat? force) (← nat? eu) (← tgid? tg) (← dirs? dirs))
+    | ["mode", _, site, u] => do pure (modeOp site (← nat? u))
+    | ["lockpre", _, perm, uid, eu, _] => do pure (lockPreOp (← nat? perm) (← nat? uid) (← nat? eu))
+    | _ => none
+  (st, out.getD "bad-op")
 
 end Driver.Path
